@@ -1,4 +1,5 @@
 import Logrange.Proofs.TIndexLts
+import Logrange.Proofs.TIndexProg
 import Logrange.Generated.C14
 /-!
 # C14 — A partition is never deleted, re-created or left locked while someone uses it
@@ -337,6 +338,139 @@ theorem getjournals_limit_path_balanced :
     let st := reach (setup2 ++ [.visitBegin 1 [7, 8] false true, .visitTry 1 0, .visitCb 1 0 false, .visitEnd 1, .release 1 0])
     st.c.holds = [] ∧ st.panicked = false ∧ st.vis 1 = none ∧ st.c.parts 0 = some ⟨7, 0, false⟩ := by
   decide
+
+/-! ### the real callers as programs: they follow the protocol, they are balanced, they cannot deadlock
+
+`Model/TIndexProg.lean` mirrors every caller of the tag index in /repo as a control-state machine over the labels
+above (`Write`, `GetParitionInfo`, `GetJournal`+`Release`, `tmirebuilder.serve`, `cleanupTsIndex`, `truncateGlobally`,
+`ppipe.cleanPartitions`, `Partitions`, `GetJournals` incl. limit and repaired error path + `cursor.close`, `Truncate` with
+`deleteJournal`). `Reach` = any number of such callers, started at any time, interleaved in any way (no `Shutdown`). -/
+open Logrange.TIndexProg in
+/-- **The callers follow the protocol**: every critical section a caller is about to perform is enabled (it releases
+only what it holds, locks only what it holds, unlocks/deletes only what it locked, …) — so every theorem above about
+protocol-following actors applies to the real callers. -/
+theorem callers_follow_protocol (x : Sys) (h : Reach x) (a : Nat) (l : Lbl) (c' : Ctl)
+    (ho : (l, c') ∈ pnext a x.st (x.ctl a)) : ∃ st', step x.st l = some st' := by
+  have hi := sysInv_reach h
+  obtain ⟨st', hs, _⟩ := own_step hi.st hi.nd (hi.loc a) l c' ho
+  exact ⟨st', hs⟩
+
+open Logrange.TIndexProg in
+/-- **Every caller program is balanced**: whatever the interleaving with any number of other callers, a caller that
+has returned holds nothing — no client acquisition, no visit-owned acquisition, no exclusive lock, no visit. -/
+theorem program_balanced (x : Sys) (h : Reach x) (a : Nat) (hf : x.ctl a = .fin) :
+    (∀ t, t ∈ x.st.c.holds → t.actor ≠ a) ∧ x.st.vis a = none ∧ ∀ s, x.st.c.locker s ≠ some a := by
+  have hl := (sysInv_reach h).loc a
+  rw [hf] at hl
+  have hv : x.st.vis a = none := hl.vis
+  refine ⟨?_, hv, fun s hlk => by have := hl.lck s hlk; simp [lockedAt] at this⟩
+  intro t ht hta
+  obtain ⟨ta, ts, tau⟩ := t
+  simp only [] at hta; subst hta
+  have h1 := List.one_le_count_iff.mpr ht
+  cases tau with
+  | false => have := hl.cli ts; simp [heldOf] at this; omega
+  | true => have := hl.aut ts; rw [hv] at this; simp [owedCount] at this; omega
+
+open Logrange.TIndexProg in
+/-- **Counts return to zero when activity stops** — for the real callers, by theorem: when every caller has returned,
+no acquisition is outstanding, every live partition has `readers = 0` and none is exclusively locked. -/
+theorem callers_quiescent_zero (x : Sys) (h : Reach x) (hall : ∀ a, x.ctl a = .fin) :
+    x.st.c.holds = [] ∧ ∀ s p, x.st.c.parts s = some p → p.readers = 0 ∧ p.exclusive = false := by
+  have hnil : x.st.c.holds = [] := by
+    apply List.eq_nil_iff_forall_not_mem.mpr
+    intro t ht
+    exact (program_balanced x h t.actor (hall t.actor)).1 t ht rfl
+  refine ⟨hnil, ?_⟩
+  intro s p hp
+  have hi := (sysInv_reach h).st.core
+  have c := hi.cnt s p hp
+  rw [hnil] at c
+  refine ⟨by simpa [nTok] using c, ?_⟩
+  cases hx : p.exclusive with
+  | false => rfl
+  | true =>
+    obtain ⟨_, _, _, _, hm⟩ := hi.excl s p hp hx
+    rw [hnil] at hm; cases hm
+
+open Logrange.TIndexProg in
+/-- **The exclusive holder is inside `deleteJournal`'s straight-line section and its next step frees the partition**:
+whenever a partition is exclusively locked, its locker `b` stands right before `Delete` or before `UnlockExclusively`;
+that step is enabled, and after it the partition is gone or no longer exclusively locked (bounded progress: a waiter
+waits for at most this one step of the holder — the second, final `UnlockExclusively` after a `Delete` is a no-op). -/
+theorem exclusive_holder_frees (x : Sys) (h : Reach x) (s : Nat) (p : Part) (hp : x.st.c.parts s = some p)
+    (hx : p.exclusive = true) :
+    ∃ b k, x.st.c.locker s = some b ∧ (x.ctl b = .dj .delete s k ∨ x.ctl b = .dj .unlock s k) ∧
+      ∃ l c' st', (l, c') ∈ pnext b x.st (x.ctl b) ∧ step x.st l = some st' ∧
+        (st'.c.parts s = none ∨ ∃ p', st'.c.parts s = some p' ∧ p'.exclusive = false) := by
+  have hi := sysInv_reach h
+  obtain ⟨hr1, b, _, hlb, _⟩ := hi.st.core.excl s p hp hx
+  have hloc := hi.loc b
+  have hat := hloc.lck s hlb
+  cases hc : x.ctl b with
+  | dj ph s' k =>
+    rw [hc] at hat hloc
+    cases ph with
+    | lock => simp [lockedAt] at hat
+    | delete =>
+      simp only [lockedAt] at hat; subst hat
+      refine ⟨b, k, hlb, Or.inl hc, .delete b s, .dj .unlock s k, stUnl x.st (upd x.st.c.parts s none) s,
+        by simp [hc, pnext, djOpts], by simp [step, stUnl, hp, hx, hlb, deleteRaw], Or.inl (upd_same _ _ _)⟩
+    | unlock =>
+      simp only [lockedAt] at hat; subst hat
+      refine ⟨b, k, hlb, Or.inr hc, .unlockX b s, k,
+        stUnl x.st (upd x.st.c.parts s (some { p with exclusive := false })) s,
+        by simp [hc, pnext, djOpts], by simp [step, stUnl, hp, hlb, unlockRaw, hx, hr1], Or.inr ⟨_, upd_same _ _ _, rfl⟩⟩
+  | _ => rw [hc] at hat; simp [lockedAt] at hat
+
+open Logrange.TIndexProg in
+/-- **No deadlock**: in every reachable state in which some caller has not returned, some caller can perform a step
+that is not a pure wait (its control state or the shared state changes). A caller only ever waits behind an
+exclusively locked partition (`moves_or_excl`), and then the locker itself can move (`exclusive_holder_frees`). -/
+theorem no_deadlock (x : Sys) (h : Reach x) (a : Nat) (hc : x.ctl a ≠ .fin) :
+    ∃ b l c', (l, c') ∈ pnext b x.st (x.ctl b) ∧ Moves x.st (x.ctl b) l c' := by
+  have hi := sysInv_reach h
+  rcases moves_or_excl hi.st hi.nd (hi.loc a) hc with ⟨l, c', ho, hm⟩ | ⟨s, p, hp, hx⟩
+  · exact ⟨a, l, c', ho, hm⟩
+  · obtain ⟨b, k, _, _, l, c', st', ho, hs, hfree⟩ := exclusive_holder_frees x h s p hp hx
+    refine ⟨b, l, c', ho, st', hs, Or.inr ?_⟩
+    intro e; rw [e, hp] at hfree
+    rcases hfree with hf | ⟨p', hp', hx'⟩
+    · cases hf
+    · cases hp'; rw [hx] at hx'; cases hx'
+
+open Logrange.TIndexProg in
+/-- a caller waits only behind an exclusive lock: if no live partition is exclusively locked, every caller that has
+not returned can move itself -/
+theorem waits_only_behind_exclusive (x : Sys) (h : Reach x) (a : Nat) (hc : x.ctl a ≠ .fin)
+    (hno : ∀ s p, x.st.c.parts s = some p → p.exclusive = false) :
+    ∃ l c', (l, c') ∈ pnext a x.st (x.ctl a) ∧ Moves x.st (x.ctl a) l c' := by
+  have hi := sysInv_reach h
+  rcases moves_or_excl hi.st hi.nd (hi.loc a) hc with hm | ⟨s, p, hp, hx⟩
+  · exact hm
+  · rw [hno s p hp] at hx; cases hx
+
+/-! non-vacuity of the caller-program theorems: a writer and a `Truncate` (with a `MAXDBSIZE` pass over source 0)
+start together; the writer creates partition 0 — a reachable state with one unfinished caller holding a partition
+and another one about to visit it -/
+namespace CallersExample
+open Logrange.TIndexProg
+
+def ctl0 : Nat → Ctl := fun a => if a = 0 then .acqTags 7 true else if a = 1 then .vStart (.truncate [0]) [7] else .fin
+def st1 : St := (step init (.getOrCreate 0 7 true)).getD init
+def sys1 : Sys := ⟨st1, upd ctl0 0 (.rel 0 [] .fin)⟩
+
+theorem reach_sys1 : Reach sys1 := by
+  refine Reach.step (Reach.start ctl0 ?_) ⟨0, .getOrCreate 0 7 true, .rel 0 [] .fin, ?_, rfl, rfl⟩
+  · intro a; unfold ctl0; split
+    · simp [isEntry]
+    · split <;> simp [isEntry]
+  · simp [pnext, ctl0, init, findTags]
+
+example : sys1.st.c.holds = [⟨0, 0, false⟩] ∧ sys1.ctl 0 = .rel 0 [] .fin := ⟨rfl, rfl⟩
+example : ∃ b l c', (l, c') ∈ pnext b sys1.st (sys1.ctl b) ∧ Moves sys1.st (sys1.ctl b) l c' :=
+  no_deadlock sys1 reach_sys1 0 (by simp [sys1, upd])
+end CallersExample
 
 /-! ### non-vacuity: concrete traces that meet the hypotheses above -/
 
